@@ -311,7 +311,7 @@ theorem G_dropRefs {s w} (h : G s NoX w) : Inv s (dropRefs w) := by
       if d < w.nObjs ∧ reachable w d = false ∧ (w.objs d).finalized = false then
         { w.objs d with finalized := true, finCalls := (w.objs d).finCalls + 1, viaDel := (w.objs d).viaDel + 1 }
       else w.objs d := by
-    intro d; simp [dropRefs]
+    intro d; simp [dropRefs, Generated.dataDelCallsFinalize]
   have hatt0 : ∀ j, Att w j → ∃ k, k < w.nIters ∧ (w.iters k).hasData = true ∧ (w.iters k).data = j := fun j h => h
   have hatt1 : ∀ k, k < w.nIters → (w.iters k).hasData = true → Att w (w.iters k).data := fun k h1 h2 => ⟨k, h1, h2, rfl⟩
   have hb : ∀ d, reachable w d = false ↔ ¬ ((w.objs d).held = true ∨ Att w d) := by
